@@ -66,19 +66,23 @@ pub mod tokio {
 /// code is known to be under the connection deadline. The predicate is uninterpreted and nothing establishes it in
 /// `Listener::handle`, so such a wait there is an unprovable obligation.
 pub uninterp spec fn vx_under_deadline() -> bool;
+/// C16: the code runs in the connection's own task (R14 marks the beginning of the block handed to `tracker.spawn`). What runs
+/// before that point runs in the accept loop's task, where waiting for one client delays every other client.
+pub uninterp spec fn vx_in_connection_task() -> bool;
+#[verifier::external_body] pub fn vx_task_begin() ensures vx_in_connection_task() { unimplemented!() }
 pub struct Sink {}
 pub fn vx_sink() -> Sink { Sink {} }
 #[verifier::external_body]
 pub fn vx_copy(reader: &mut ProxiedStream, writer: &mut Sink) -> (r: Result<u64, IoError>)
     requires
-        vx_under_deadline(), // @cl:C14.socket_wait.under_connection_deadline.copy
+        vx_under_deadline(), // @cl:C14+C16.socket_wait.under_connection_deadline.copy
     ensures final(reader).header == old(reader).header, final(reader).shut == old(reader).shut
 { unimplemented!() }
 /// tokio::time::sleep: a wait the client cannot end; inside the listener task it extends the life of the connection
 #[verifier::external_body]
 pub fn vx_sleep(duration: Duration)
     requires
-        vx_under_deadline(), // @cl:C14.socket_wait.under_connection_deadline.sleep
+        vx_under_deadline(), // @cl:C14+C16.socket_wait.under_connection_deadline.sleep
 { unimplemented!() }
 impl Uuid { #[verifier::external_body] pub fn new_v4() -> Uuid { unimplemented!() } }
 #[verifier::external_body] pub fn vx_trace_id_string() -> String { unimplemented!() }
@@ -99,6 +103,10 @@ impl SystemTime {
 impl Duration {
     pub fn as_secs(&self) -> (r: u64) ensures r == self.secs { self.secs }
     pub const fn from_secs(secs: u64) -> (r: Duration) ensures r.secs == secs { Duration { secs } }
+    /// sub-second constructors: some duration (the model counts whole seconds only)
+    #[verifier::external_body] pub fn from_millis(ms: u64) -> Duration { unimplemented!() }
+    #[verifier::external_body] pub fn from_micros(us: u64) -> Duration { unimplemented!() }
+    #[verifier::external_body] pub fn from_nanos(ns: u64) -> Duration { unimplemented!() }
 }
 /// `"127.0.0.1:8080".parse().expect(..)`: parsing a literal socket address (R25); succeeds for this literal (assumed)
 pub struct AddrParseError {}
@@ -244,6 +252,8 @@ pub struct ProxiedStream { pub header: ProxyHeader, pub shut: Ghost<bool> }
 impl ProxiedStream {
     #[verifier::external_body]
     pub fn create_from_tokio(stream: TcpStream, config: ParseConfig) -> (r: Result<ProxiedStream, IoError>)
+        requires
+            vx_in_connection_task(), // @cl:C16.accept_loop.never_waits_for_a_client.proxy_header
         ensures match r { Ok(s) => proxy_parse(stream, config) == Ok::<Option<ProxiedAddress>, ()>(s.header.addr) && !s.shut@, Err(_) => proxy_parse(stream, config) is Err }
     { unimplemented!() }
     #[verifier::external_body]
@@ -255,25 +265,25 @@ impl ProxiedStream {
     #[verifier::external_body]
     pub fn read(&mut self, buf: &mut [u8]) -> (r: Result<usize, IoError>)
         requires
-            vx_under_deadline(), // @cl:C14.socket_wait.under_connection_deadline.read
+            vx_under_deadline(), // @cl:C14+C16.socket_wait.under_connection_deadline.read
         ensures final(self).header == old(self).header, final(self).shut == old(self).shut
     { unimplemented!() }
     #[verifier::external_body]
     pub fn read_exact(&mut self, buf: &mut [u8]) -> (r: Result<usize, IoError>)
         requires
-            vx_under_deadline(), // @cl:C14.socket_wait.under_connection_deadline.read_exact
+            vx_under_deadline(), // @cl:C14+C16.socket_wait.under_connection_deadline.read_exact
         ensures final(self).header == old(self).header, final(self).shut == old(self).shut
     { unimplemented!() }
     #[verifier::external_body]
     pub fn read_to_end(&mut self, buf: &mut Vec<u8>) -> (r: Result<usize, IoError>)
         requires
-            vx_under_deadline(), // @cl:C14.socket_wait.under_connection_deadline.read_to_end
+            vx_under_deadline(), // @cl:C14+C16.socket_wait.under_connection_deadline.read_to_end
         ensures final(self).header == old(self).header, final(self).shut == old(self).shut
     { unimplemented!() }
     #[verifier::external_body]
     pub fn read_u8(&mut self) -> (r: Result<u8, IoError>)
         requires
-            vx_under_deadline(), // @cl:C14.socket_wait.under_connection_deadline.read_u8
+            vx_under_deadline(), // @cl:C14+C16.socket_wait.under_connection_deadline.read_u8
         ensures final(self).header == old(self).header, final(self).shut == old(self).shut
     { unimplemented!() }
 }
